@@ -102,30 +102,19 @@ pub fn expected_ranges(doc: &Document, r: &Rendered) -> Vec<ExpRange> {
                         mm.span.last,
                         Some(mm.semi_tok),
                     );
-                    if mm.oneway {
-                        ex.exact(format!("{p}.oneway"), one(mm.oneway_tok));
-                    }
-                    if mm.code.is_some() {
-                        ex.exact(format!("{p}.transact_code"), mm.code_span);
-                    }
+                    // oneway / transact-code / direction ranges: the statement of C04 only asks for
+                    // well-formedness and nesting (C10 and C07 pin the keyword ranges through the
+                    // diagnostics located on them)
                     ex.ty(&format!("{p}.ret"), &mm.ret);
                     for (j, ma) in mm.args.iter().enumerate() {
                         let ap = format!("{p}.a{j}");
                         if ma.name.is_some() {
                             ex.exact(format!("{ap}.symbol"), one(ma.name_tok));
-                        } else {
-                            // unnamed: empty range at the end of the type
-                            let e = r.end(ma.ty.full.last);
-                            ex.out.push(ExpRange {
-                                path: format!("{ap}.symbol"),
-                                starts: vec![e],
-                                ends: vec![e],
-                            });
                         }
+                        // an unnamed argument has no name as written: its name range is only
+                        // required to be well-formed and inside the argument (nesting check)
                         ex.full(format!("{ap}.full"), ma.span.first, None, ma.span.last, None);
-                        if ma.dir.is_some() {
-                            ex.exact(format!("{ap}.direction"), one(ma.dir_tok));
-                        }
+
                         ex.ty(&format!("{ap}.type"), &ma.ty);
                     }
                 }
